@@ -5,6 +5,8 @@ use crate::fw::{Cfg, Phase};
 pub mod c02;
 pub mod c03;
 pub mod c05;
+pub mod c06;
+pub mod c07;
 pub mod c08;
 pub mod c09;
 pub mod c10;
@@ -19,6 +21,8 @@ pub fn build(cfg: &Cfg) -> (Vec<Box<dyn Phase>>, Result<String, String>) {
     match cfg.property.as_str() {
         "C02" => (c02::phases(cfg), c02::selfcheck()),
         "C05" => (c05::phases(cfg), c05::selfcheck()),
+        "C06" => (c06::phases(cfg), c06::selfcheck()),
+        "C07" => (c07::phases(cfg), c07::selfcheck()),
         "C08" => (c08::phases(cfg), c08::selfcheck()),
         "C11" => (c11::phases(cfg), c11::selfcheck()),
         "C09" => (c09::phases(cfg), c09::selfcheck()),
